@@ -27,9 +27,11 @@ type scriptConn struct {
 	failWrite bool
 	// timeoutAt: the write with this index (0 = first) fails with a time-out after 0 bytes; later writes work again
 	// (a full socket buffer that drains later). -1 = never.
-	timeoutAt  int
-	attempts   int
-	afterFault [][]byte // what was written after the failed write
+	timeoutAt    int
+	attempts     int
+	timeoutBytes int // bytes the failing write accepts before it times out
+	partial      []byte
+	afterFault   [][]byte // what was written after the failed write
 }
 
 type deadlineCall struct {
@@ -67,7 +69,12 @@ func (c *scriptConn) Write(p []byte) (int, error) {
 	}
 	c.attempts++
 	if c.timeoutAt > 0 && c.attempts == c.timeoutAt+1 {
-		return 0, os.ErrDeadlineExceeded
+		n := c.timeoutBytes
+		if n > len(p) {
+			n = len(p)
+		}
+		c.partial = append([]byte{}, p[:n]...)
+		return n, os.ErrDeadlineExceeded
 	}
 	if c.timeoutAt > 0 && c.attempts > c.timeoutAt+1 {
 		c.afterFault = append(c.afterFault, append([]byte{}, p...))
